@@ -323,7 +323,7 @@ pub fn check_c08(tier: Tier, seed: u64) -> i32 {
     }
     if tier == Tier::Thorough {
         crate::fuzzglue::campaign(&check, "code_roundtrip", 20_000_000, 4096);
-        crate::fuzzglue::campaign(&check, "ser_roundtrip", 4_000_000, 512);
+        crate::fuzzglue::campaign(&check, "ser_roundtrip", 60_000, 512);
         crate::fuzzglue::campaign(&check, "fmt_entry", 20_000_000, 16384);
     }
     check.finish()
